@@ -721,7 +721,9 @@ class Checker:
                         return any(isinstance(x, ast.Name) and x.id == msgp for x in ast.walk(ast.parse(txt, mode='eval')))
                     except SyntaxError:
                         return msgp in txt
-                sent = any(e[0] == 'call' and any(mentions(a) for a in (e[4] if len(e) > 4 else e[2])) for e in pth.events)
+                # a transmission hands the message (or something made from it) to a callee; inspecting it (len, isinstance, ...) is not one
+                INSPECT = ('len', 'isinstance', 'type', 'bool', 'str', 'repr', 'print', 'int', 'float', 'hash', 'id', 'bytes', 'disp')
+                sent = any(e[0] == 'call' and e[1] not in INSPECT and any(mentions(a) for a in (e[4] if len(e) > 4 else e[2])) for e in pth.events)
                 if sent:
                     continue
                 for k, truth in pth.facts.items():
@@ -782,6 +784,35 @@ class Checker:
                        'their sources are not sent, receives on them yield nothing' % (want, why, 'closed' if want == 'openCom' else 'open'), line=c_.lineno)
         rep.floor('R19.10', 'per-endpoint open / close calls', n, 2)
 
+    def r1911(self):
+        """Which names are endpoints: the registration methods take `getCom(name) is None` as `unknown endpoint`, while deliveries and source polls
+        are driven by the KEYS of the endpoint table (spin loops over them; getData(name) looks the rule tables up under the key it was given).
+        The two agree only when getCom finds an endpoint by its key and by nothing else: every value it returns is None or the table entry
+        under its argument.  (An endpoint also found by a display name makes a registration under that name `succeed` and never be served.)"""
+        from ..engine.paths import paths_of
+        rep = self.rep
+        rep.rule('R19.11', 'Comms.getCom returns None or the endpoint-table entry stored under its argument: an endpoint is known exactly under its table key')
+        fi = self.comms.methods.get('getCom')
+        if fi is None:
+            raise AnalysisError('anchor vanished: Comms.getCom')
+        nm = fi.params[1] if len(fi.params) > 1 else None
+        n = 0
+        keyed = {'self.endpoints[%s]' % nm, 'self.endpoints.get(%s)' % nm, 'self.endpoints.get(%s,None)' % nm}
+        for pth in paths_of(fi.node, fi.params):
+            if pth.kind == 'fall' or pth.ret is None or pth.ret == 'None':
+                continue
+            n += 1
+            r = pth.ret
+            ok = r in keyed
+            if not ok and r.startswith('self.endpoints[') and r.endswith(']'):
+                k_ = r[len('self.endpoints['):-1]
+                ok = any(pth.facts.get(f_) is True for f_ in ('%s==%s' % (k_, nm), '%s==%s' % (nm, k_)))
+            rep.ob('R19.11', fi, 'returns %s' % r[:60], ok,
+                   'getCom can return %s, which is not the entry stored under `%s`: a name that is not a key of the endpoint table is then a known endpoint '
+                   'for the registration methods (they report success and create table rows) but never for spin / getData, which go by the keys' % (r[:60], nm),
+                   line=pth.ret_line)
+        rep.floor('R19.11', 'non-None returns of getCom', n, 1)
+
     def _table_refs(self, t):
         """tables written by storing to / mutating expression t (any receiver whose attribute is a table name,
         restricted to receivers that can be a Comms: `self` inside Comms, or any non-self receiver)."""
@@ -809,3 +840,4 @@ def check(model, rep):
     ck.r198()
     ck.r199()
     ck.r1910()
+    ck.r1911()
